@@ -303,6 +303,10 @@ class RepartitionDivisions(Repartition):
                     "than old division"
                 )
                 raise ValueError(msg)
+            if b[0] < a[0]:
+                # the first old partition is cut as if it started at the new
+                # left side: the split points below stay sorted
+                a = (b[0],) + tuple(a[1:])
         else:
             if a[0] != b[0]:
                 msg = "left side of old and new divisions are different"
